@@ -120,8 +120,9 @@ func ZZH_C13_single_key() {
 	zz.Cover("C13.deep", height >= 1)
 }
 
-// ZZH_C13_account_fields: balance, nonce and code through writes, nested snapshots,
-// reverts, commits and reopen.
+// ZZH_C13_account_fields: balance (set, credit, debit), nonce and code through writes, nested
+// snapshots, reverts, commits and reopen.
+// zz:also C10
 func ZZH_C13_account_fields() {
 	store := zz.NewStore()
 	cache, _ := NewAccountCache()
@@ -136,14 +137,34 @@ func ZZH_C13_account_fields() {
 	var snaps []st
 	var ids []int
 	height := uint64(0)
+	if zz.Choice("existingAccount", 2) == 1 {
+		// the account already exists: committed in an earlier block with a symbolic balance
+		m.bal = zz.U64i("bal0")
+		zz.Assume(m.bal < 1<<62)
+		m.nonce = 1
+		l.SetBalance(addr, new(big.Int).SetUint64(m.bal))
+		l.SetNonce(addr, 1)
+		height++
+		zzCommit(l, height)
+	}
 	k := 3
 	if zz.Thorough() {
 		k = 4
 	}
 	for step := 0; step < k; step++ {
-		switch zz.Choice("op", 7) {
+		switch zz.Choice("op", 9) {
+		case 7: // credit through the account object (EVM value transfer path)
+			v := zz.U64i("credit")
+			zz.Assume(v < 1<<62 && m.bal < 1<<62)
+			l.AddBalance(addr, new(big.Int).SetUint64(v))
+			m.bal += v
+		case 8: // debit through the account object
+			v := zz.U64i("debit")
+			zz.Assume(v <= m.bal)
+			l.SubBalance(addr, new(big.Int).SetUint64(v))
+			m.bal -= v
 		case 0:
-			v := zz.U64("bal")
+			v := zz.U64i("bal")
 			l.SetBalance(addr, new(big.Int).SetUint64(v))
 			m.bal = v
 		case 1:
